@@ -78,5 +78,8 @@ where
 
 pub fn engines() -> Vec<Box<dyn GAd>> {
     use cfgs::shipped::*;
+    if crate::common::slice() {
+        return vec![];
+    }
     vec![mk::<bw6_761::BW6_761>("bw6_761"), mk::<bls12_381::Bls12_381>("bls12_381"), mk::<mnt4_298::MNT4_298>("mnt4_298"), mk::<bn254::Bn254>("bn254")]
 }
